@@ -36,8 +36,25 @@ def run(rep, tier):
     winding(rep, F)
     winding_table(rep, F)
     least_index_table(rep, F)
+    orient_tables(rep, F)
+    # "Rect and Triangle areas equal those of their polygon form": the conversions themselves (rules shared with C18)
+    from . import c18
+    from ..report import Alias
+    rep.rule("R5.10", "Rect / Triangle / Line -> Polygon / LineString conversions walk the corners in order (C18 R18.5): the polygon form whose area the property compares with is the right polygon")
+    c18.FACTS[0] = F
+    c18.conversion_rules(Alias(rep, "R5.10"), F)
     from . import gt_tables
     gt_tables.run(rep, F, "R5.8", select={"Line::determinant", "Rect::width", "Rect::height"})
+
+
+def area_kernels(rep, F):
+    """the area rules as one unit (shared with C06, whose weights are areas)"""
+    ex = Symex(F, no_inline=[r"Area<T>>::", r"::signed_area$", r"::unsigned_area$", r"area::get_linestring_area$", r"Polygon::<T>::exterior$", r"Polygon::<T>::interiors$",
+                             r"Line::<T>::determinant$", r"::to_lines$", r"Rect::<T>::width$", r"Rect::<T>::height$"], inline_crates=("geo", "geo_types"))
+    folds(rep, F, ex)
+    polygon_area(rep, F, ex)
+    ring_area(rep, F)
+    simple_areas(rep, F, ex)
 
 
 def single(ex, fn):
@@ -483,3 +500,166 @@ def least_index_table(rep, F, rule="R5.7"):
 
 def fmt_ring(coords):
     return "[" + " ".join("(%d,%d)" % (c["x"], c["y"]) for c in coords) + "]"
+
+
+def orient_tables(rep, F, rule="R5.9"):
+    """Orient::orient of Polygon (exterior + two holes) and MultiPolygon (two members), decided on abstract rings: a ring is an identity plus a
+    winding, and the Winding API is answered on that abstraction (winding_order, is_cw / is_ccw, clone_to_winding_order, make_cw / ccw_winding,
+    make_winding_order, clone).  For every assignment of input windings and both directions the result must hold the same rings in the same
+    places, the exterior wound as requested (Default: counter-clockwise) and every hole the opposite way - for every member of a collection."""
+    import itertools
+    from ..symex import _ret, _set_behind
+    rep.rule(rule, "Orient::orient on abstract rings (identity + winding), every assignment of input windings, both directions: Polygon -> same rings, exterior wound as requested and every hole the opposite way; MultiPolygon -> the same for every member, in member order")
+    GT_ = GT
+    WO = "geo::algorithm::winding_order::WindingOrder"
+    DIR = "geo::algorithm::orient::Direction"
+    OPT = "core::option::Option"
+
+    def ring(i, w):
+        return ("adt", "verif::Ring", "Ring", (("const", i), ("adt", WO, w, ())))
+
+    def ring_dec(v):
+        for _ in range(4):
+            if v[0] in ("&",):
+                v = v[1]
+        if v[0] == "adt" and v[1] == "verif::Ring":
+            return (v[3][0][1], v[3][1][2])
+        raise Unanalysable("not an abstract ring: %s" % show(v)[:80])
+
+    def vec(items):
+        return ("call", "vec!", (("array", tuple(items)),))
+
+    def val(ex, st, a):
+        v = a
+        for _ in range(4):
+            if v[0] == "ref":
+                v = ex.load(st, v[1])
+            elif v[0] == "&":
+                v = v[1]
+            else:
+                break
+        return v
+
+    def m_winding_order(ex, st, call, args):
+        r = val(ex, st, args[0])
+        if r[0] != "adt" or r[1] != "verif::Ring":
+            return NotImplemented
+        return _ret(st, ("adt", OPT, "Some", (r[3][1],)))
+
+    def m_is(which):
+        def m(ex, st, call, args):
+            r = val(ex, st, args[0])
+            if r[0] != "adt" or r[1] != "verif::Ring":
+                return NotImplemented
+            return _ret(st, ("const", r[3][1][2] == which))
+        return m
+
+    def m_clone_to(ex, st, call, args):
+        r = val(ex, st, args[0])
+        w = val(ex, st, args[1])
+        if r[0] != "adt" or r[1] != "verif::Ring" or w[0] != "adt":
+            return NotImplemented
+        return _ret(st, ("adt", "verif::Ring", "Ring", (r[3][0], ("adt", WO, w[2], ()))))
+
+    def m_make(which):
+        def m(ex, st, call, args):
+            r = val(ex, st, args[0])
+            if r[0] != "adt" or r[1] != "verif::Ring":
+                return NotImplemented
+            w = which
+            if w is None:
+                wv = val(ex, st, args[1])
+                if wv[0] != "adt":
+                    return NotImplemented
+                w = wv[2]
+            new = ("adt", "verif::Ring", "Ring", (r[3][0], ("adt", WO, w, ())))
+            if args[0][0] == "ref":
+                ex.store(st, args[0][1], new, log=False)
+            else:
+                return NotImplemented
+            return _ret(st, ("tuple", ()))
+        return m
+    W = "geo::algorithm::winding_order::Winding::"
+    models = {W + "winding_order": m_winding_order, W + "is_cw": m_is("Clockwise"), W + "is_ccw": m_is("CounterClockwise"),
+              W + "clone_to_winding_order": m_clone_to, W + "make_cw_winding": m_make("Clockwise"), W + "make_ccw_winding": m_make("CounterClockwise"),
+              W + "make_winding_order": m_make(None)}
+    for g in F.find(r"winding_order::Winding>::(winding_order|is_cw|is_ccw|clone_to_winding_order|make_cw_winding|make_ccw_winding|make_winding_order)$", crates=("geo",)):
+        models[g.path] = models[W + g.path.rsplit("::", 1)[-1]]
+
+    def poly(k, ws):
+        return ("adt", GT_ + "polygon::Polygon", "Polygon", (ring(10 * k, ws[0]), vec([ring(10 * k + j + 1, w) for j, w in enumerate(ws[1:])])))
+
+    def poly_dec(v):
+        """Polygon value or Polygon::new(ext, interiors) term -> [(id, winding), ...] exterior first"""
+        for _ in range(3):
+            if v[0] == "&":
+                v = v[1]
+        if v[0] == "call" and v[1].endswith("Polygon::<T>::new") and len(v[2]) == 2:
+            ext, ints = v[2]
+        elif v[0] == "adt" and v[1].endswith("polygon::Polygon"):
+            ext, ints = v[3]
+        else:
+            raise Unanalysable("not a polygon: %s" % show(v)[:100])
+        from ..citer import _array_items
+        items = None
+        t = ints
+        for _ in range(3):
+            if t[0] == "&":
+                t = t[1]
+        if t[0] == "call" and t[1] == "vec!":
+            items = list(t[2][0][1]) if t[2] and t[2][0][0] == "array" else None
+        if items is None:
+            raise Unanalysable("interiors of the result are not a concrete list: %s" % show(ints)[:100])
+        return [ring_dec(ext)] + [ring_dec(x) for x in items]
+    WS = ("Clockwise", "CounterClockwise")
+    n_ok = 0
+    # Polygon (through the trait impl) and MultiPolygon
+    for key, pat, builder, decode in (
+            ("Polygon", r"^%spolygon::Polygon<T>$" % GT_, lambda ws: (poly(0, ws[:3]), [ws[:3]]), lambda v: [poly_dec(v)]),
+            ("MultiPolygon", r"^%smulti_polygon::MultiPolygon<T>$" % GT_,
+             lambda ws: (("adt", GT_ + "multi_polygon::MultiPolygon", "MultiPolygon", (vec([poly(0, ws[:2]), poly(1, ws[2:4])]),)), [ws[:2], ws[2:4]]), None)):
+        try:
+            fn = F.impl_method("geo::algorithm::orient::Orient", pat, None, "orient", crates=("geo",))
+        except KeyError as e:
+            rep.bad(rule, "orient:%s:anchor" % key, str(e))
+            continue
+        bad = None
+        k = 0
+        for ws in itertools.product(WS, repeat=3 if key == "Polygon" else 4):
+            for d, want_ext in (("Default", "CounterClockwise"), ("Reversed", "Clockwise")):
+                arg, members = builder(ws)
+                ex = Symex(F, models=models, concrete_iters=True, loop_bound=8, inline_crates=("geo", "geo_types"), max_depth=12,
+                           no_inline=[r"Polygon::<T>::new$", r"MultiPolygon::<T>::new$"])
+                ex.fold_ground_eq = True
+                try:
+                    ps = [p for p in ex.run(fn, args=[("&", arg), ("adt", DIR, d, ())]) if p.kind != "cut"]
+                    if len(ps) != 1 or ps[0].kind != "ret" or ps[0].pc:
+                        raise Unanalysable("%d paths / a decision on something other than the windings: %s" % (len(ps), [show_pc(p.pc)[:80] for p in ps][:2]))
+                    r = ps[0].ret
+                    if key == "Polygon":
+                        got = [poly_dec(r)]
+                    else:
+                        for _ in range(3):
+                            if r[0] == "&":
+                                r = r[1]
+                        if not (r[0] == "call" and r[1].endswith("MultiPolygon::<T>::new") and r[2] and r[2][0][0] == "call" and r[2][0][1] == "vec!"):
+                            raise Unanalysable("result is not MultiPolygon::new(concrete list): %s" % show(r)[:120])
+                        got = [poly_dec(x) for x in r[2][0][2][0][1]]
+                except Unanalysable as e:
+                    bad = "inputs wound %s, direction %s: %s" % (list(ws), d, e)
+                    break
+                k += 1
+                want = []
+                for mi, mw in enumerate(members):
+                    want.append([(10 * mi, want_ext)] + [(10 * mi + j + 1, "Clockwise" if want_ext == "CounterClockwise" else "CounterClockwise") for j in range(len(mw) - 1)])
+                if got != want:
+                    bad = "inputs wound %s, direction %s: result rings (id, winding) %s, expected %s" % (list(ws), d, got, want)
+                    break
+            if bad:
+                break
+        if bad:
+            rep.bad(rule, "orient:%s" % key, "%s::orient: %s" % (key, bad), where=fn.loc())
+        else:
+            n_ok += 1
+            rep.ok(rule, "orient:%s[%d assignments]" % (key, k))
+    rep.floor(rule, "orient tables", n_ok, 2)
